@@ -76,9 +76,10 @@ class PropertyCheck:
         import gen
         from common import hx
         cases = []
-        for i in range(n + max(40, n // 3)):
+        ext = gen.extremes_list(self.rng, max(40, n // 3))
+        for i in range(n + len(ext)):
             # composed drawings, then drawings at the ends of the size axes (gen.extremes)
-            t = gen.zoo(self.rng) if i < n else gen.extremes(self.rng)
+            t = gen.zoo(self.rng) if i < n else ext[i - n]
             if self.rng.chance(1, 2):
                 cases.append((t, backend.Settings(), self.rng.choice(["to_svg", "compressed"])))
             else:
@@ -219,7 +220,7 @@ def run_check(check_cls, argv):
                 # drawings at the ends of the size axes go to the property's own oracle as well
                 if chk.zoo and hasattr(chk, "oracle_on_texts"):
                     import gen
-                    ext = [chk.extreme_input(gen.extremes(chk.rng)) for _ in range(chk.scale(60, 600))]
+                    ext = [chk.extreme_input(t) for t in gen.extremes_list(chk.rng, chk.scale(60, 600))]
                     ext = [t for t in ext if t is not None]
                     chk.count("extreme_inputs", len(ext))
                     failures = list(failures) + list(chk.oracle_on_texts(ext))
